@@ -8,6 +8,7 @@ import (
 	"github.com/tuneinsight/lattigo/v6/core/rlwe"
 
 	"verif/engine"
+	"verif/lib/cklib"
 	"verif/uni"
 )
 
@@ -89,7 +90,7 @@ func sumsScenario(w *world) engine.Scenario {
 			err, pan = uni.Try(func() error { return f(o, in, out) })
 			if pan != nil && w.np == 0 && method != "InnerFunction" && isNilDeref(pan) {
 				// one root cause, one signature (see FINDINGS.md): PartialTracesSum decomposes with levelP = -1
-				c.Fail(sigNoP, "%s: %s(batch=%d,n=%d) on a parameter set without auxiliary modulus P panics: %v", w.name, method, batch, n, pan)
+				cklib.FailOnce(c, cklib.LeafKey(name, pi, mi), sigNoP, "%s: %s(batch=%d,n=%d) on a parameter set without auxiliary modulus P panics: %v", w.name, method, batch, n, pan)
 				noP = true
 			}
 			return
@@ -277,7 +278,7 @@ func averageScenario(w *world) engine.Scenario {
 		o := w.newOps(w.listInnerSum(batch, n))
 		out := ct.CopyNew()
 		if err, pan := uni.Try(func() error { return o.average(ct, lb, out) }); pan != nil && w.np == 0 && isNilDeref(pan) {
-			c.Fail(sigNoP, "%s: Average(logBatch=%d) on a parameter set without auxiliary modulus P panics: %v", w.name, lb, pan)
+			cklib.FailOnce(c, cklib.LeafKey(name, lb), sigNoP, "%s: Average(logBatch=%d) on a parameter set without auxiliary modulus P panics: %v", w.name, lb, pan)
 			return
 		} else if err != nil || pan != nil {
 			c.Fail("C11/ckks/Average/failed-with-advertised-keys", "%s: Average(logBatch=%d) with keys for GaloisElementsForInnerSum(%d,%d): err=%v panic=%v", w.name, lb, batch, n, err, pan)
